@@ -255,6 +255,13 @@ impl Property for C02 {
             let bad = s.starts_with('-') || s == "!" || s == "(" || s == ")" || s == ",";
             starts.push(if bad { format!("./{s}") } else { s });
         }
+        // now and then hundreds of starting points (the same few, over and over): every one of
+        // them is walked
+        if rng.chance(1, 150) {
+            let n = *rng.pick(&[255usize, 256, 257, 300]);
+            let base = starts.clone();
+            starts = (0..n).map(|i| base[i % base.len()].clone()).collect();
+        }
         // every component of a hostile path might begin with '-', which is
         // fine once it is not the first character of the argument
         let follow_flag = match rng.weighted(&[35, 15, 20, 30]) {
@@ -425,6 +432,9 @@ impl Property for C02 {
         }
         if sc.starts.len() > 1 {
             rep.probe("several_starting_points");
+        }
+        if sc.starts.len() >= 255 {
+            rep.probe("hundreds_of_starting_points");
         }
         if sc.note == "huge directory" {
             rep.probe("directory_with_more_than_65535_entries");
